@@ -377,17 +377,39 @@ pub fn walk_cmd(args: &[&str]) -> String {
     };
     let result = (|| -> Result<(Vec<String>, Vec<Vec<String>>), String> {
         let depth = depth.ok_or_else(|| "depthnone".to_string())?;
-        let behavior = WalkBehavior { depth, link };
+        // the behaviour reaches the walk the way a caller would write it: the default through `walk()`, a single
+        // non-default field through its own `Into<WalkBehavior>` conversion, both fields through the struct
+        let default_depth = depth == DepthBehavior::Unbounded;
+        let default_link = link == LinkBehavior::ReadFile;
+        let all_default = default_depth && default_link;
+        let behavior: WalkBehavior = if all_default {
+            ().into()
+        }
+        else if default_depth {
+            link.into()
+        }
+        else if default_link {
+            depth.into()
+        }
+        else {
+            WalkBehavior { depth, link }
+        };
         let logs: Logs = Rc::new(RefCell::new(vec![]));
         let mut items = vec![];
         if mode == "g" {
             let glob = Glob::new(&expr).map_err(|_| "globerr".to_string())?;
-            let walk = glob.walk_with_behavior(basep.clone(), behavior);
-            run4(walk, &layers, &logs, &mut items)?;
+            if all_default {
+                run4(glob.walk(basep.clone()), &layers, &logs, &mut items)?;
+            }
+            else {
+                run4(glob.walk_with_behavior(basep.clone(), behavior), &layers, &logs, &mut items)?;
+            }
+        }
+        else if all_default {
+            run4(basep.as_path().walk(), &layers, &logs, &mut items)?;
         }
         else {
-            let walk = basep.as_path().walk_with_behavior(behavior);
-            run4(walk, &layers, &logs, &mut items)?;
+            run4(basep.as_path().walk_with_behavior(behavior), &layers, &logs, &mut items)?;
         }
         let logs = logs.borrow().clone();
         Ok((items, logs))
